@@ -468,12 +468,28 @@ fn step<const N: usize>(
                 Ok(()) => with_snap("ok", t[1]),
                 Err(e) => {
                     let msg = e.to_string();
-                    let ids = msg.split("missed: ").nth(1).map_or("?".to_string(), |tail| {
-                        tail.split(", ")
-                            .map(|x| x.trim_start_matches('ν').to_string())
-                            .collect::<Vec<_>>()
-                            .join(",")
-                    });
+                    // the vertices the message names: the ν<digits> tokens after the last colon (the wording of the
+                    // message is nobody's contract; that it names the missed vertices is)
+                    let tail = msg.rsplit(':').next().unwrap_or("");
+                    let mut ids = String::new();
+                    let cs: Vec<char> = tail.chars().collect();
+                    let mut i = 0;
+                    while i < cs.len() {
+                        if cs[i] == 'ν' && i + 1 < cs.len() && cs[i + 1].is_ascii_digit() {
+                            let mut j = i + 1;
+                            while j < cs.len() && cs[j].is_ascii_digit() {
+                                j += 1;
+                            }
+                            if !ids.is_empty() {
+                                ids.push(',');
+                            }
+                            ids.extend(&cs[i + 1..j]);
+                            i = j;
+                        } else {
+                            i += 1;
+                        }
+                    }
+
                     with_snap(format!("err {ids}"), t[1])
                 }
             }
